@@ -31,7 +31,9 @@ Section Identity.
     - intros j _. cbv beta. rewrite <- bigsum_scale.
       rewrite (bigsum_ext p _ (fun l => bigsum n (fun i => uv j * (z i j * z i l * uv l)))).
       + now rewrite bigsum_swap.
-      + intros l _. cbv beta. rewrite bigsum_scale_r. rewrite <- bigsum_scale. rewrite <- bigsum_scale. apply bigsum_ext. intros i _. ring.
+      + intros l _. cbv beta.
+        rewrite (bigsum_ext n (fun i => uv j * (z i j * z i l * uv l)) (fun i => (uv j * uv l) * (z i j * z i l))) by (intros; ring).
+        rewrite bigsum_scale. ring.
   Qed.
 
   Lemma ridge_term : bigsum p (fun j => uv j * bigsum p (fun l => (if Nat.eqb j l then ridge else 0) * uv l)) == ridge * bigsum p (fun j => uv j * uv j).
